@@ -4097,6 +4097,19 @@ func (l *Lowerer) lowerLocalVar(v *parser.VarDecl, target *[]ir.Statement) error
 		}})
 	}
 
+	// A variable declared without initializer holds the zero value every time
+	// its declaration is executed: inside a loop it must be reset per iteration,
+	// the one-time zero initialization of the local is not enough.
+	if v.Init == nil && l.isInsideLoop {
+		zero := l.interruptEmitter(ir.Expression{
+			Kind: ir.ExprZeroValue{Type: typeHandle},
+		})
+		*target = append(*target, ir.Statement{Kind: ir.StmtStore{
+			Pointer: exprHandle,
+			Value:   zero,
+		}})
+	}
+
 	// Track declaration for unused variable warnings
 	l.localDecls[v.Name] = v.Span
 	l.localIsVar[v.Name] = true
